@@ -227,6 +227,9 @@ func (m ClientState) RestrictChain(cdc codec.BinaryCodec, store storetypes.KVSto
 		}
 		current = *tmpConsensus
 	}
+	// `new` is now the header of the new branch right above the fork point (the
+	// sibling of `current`): it belongs to the main chain as well
+	newHashes = append(newHashes, new.Hash())
 	for i := len(newHashes) - 1; i >= 0; i-- {
 		newTmp := store.Get(EthHeaderIndexKey(newHashes[i], ti.GetRevisionHeight()))
 		if newTmp == nil {
